@@ -146,7 +146,29 @@ def subset(cell):
     for name, d in (('created before', before), ('created after', after)):
         o2, obs2 = observe(d, DEFAULTS)
         out += [{'msg': f'default calculator {name} one with overrides {over}: {m}', 'key': None} for m in o2]
-    return {'v': out[:4], 'n': 3, 'states': 3, 'transitions': 3, 'traces': 3, 'nt': cell if sub else None, 'obs': [obs['zero'], len(sub)]}
+    # one dict object reused for several calculators while the global default step changes in between: each calculator takes the settings in the
+    # dict plus the defaults IN FORCE WHEN IT IS CREATED (the unspecified ones must not stick to the dict)
+    import py_ballisticcalc as pb_
+    U = pb_.Unit
+    shared = dict(over)
+    n_sh = 0
+    try:
+        for g_ft in (None, 0.25, None, 0.125):
+            if g_ft is None:
+                pb_.reset_globals()
+            else:
+                pb_.set_global_max_calc_step_size(U.Foot(g_ft))
+            c_sh = pb_.Calculator(_config=shared)
+            want = over.get('max_calc_step_size_feet', g_ft if g_ft is not None else 0.5)
+            got = first_advance(c_sh)
+            n_sh += 1
+            if got != first_advance(pb_.Calculator(_config={'max_calc_step_size_feet': want})):
+                out.append({'msg': f'the same settings dict {over} reused for a calculator created while the global default step is {g_ft or 0.5} ft: '
+                                   f'it does not step like a calculator with maximum step {want} ft (settings of an earlier creation stuck to the dict?)', 'key': None})
+                break
+    finally:
+        pb_.reset_globals()
+    return {'v': out[:4], 'n': 3 + n_sh, 'states': 3 + n_sh, 'transitions': 3 + n_sh, 'traces': 3, 'nt': cell if sub else None, 'obs': [obs['zero'], len(sub)]}
 
 
 def defaults(cell):
@@ -270,7 +292,7 @@ def history(cell):
 ADV_SHOTS = {
     'flat': {}, 'tail30': {'wind': [[30, 0, None]]}, 'head30': {'wind': [[30, 180, None]]}, 'cross60': {'wind': [[60, 90, None]]},
     'slow': {'mv': 300.0}, 'arc45': {'zero': 45.0, 'mv': 800.0}, 'down30': {'look': -30.0}, 'pellet': {'dm': 'G1', 'bc': 0.03, 'mv': 900.0},
-    'vacuum': {'atmo': 'vac'}, 'alt5k': {'atmo': 'icao5k'},
+    'vacuum': {'atmo': 'vac'}, 'alt5k': {'atmo': 'icao5k'}, 'hot': {'mv': 3600.0},
     'vertical_slow': {'zero': 90.0, 'mv': 300.0, '_cfg': {'cMinimumVelocity': 0.0}, '_R': 10.0},
     'zero_velocity': {'mv': 0.0, '_cfg': {'cMinimumVelocity': 0.0}, '_R': 10.0},
 }
@@ -284,7 +306,7 @@ def advance(cell):
     name, ms = cell
     spec = dict(ADV_SHOTS[name])
     cfg = dict(spec.pop('_cfg', {}))
-    R = spec.pop('_R', 600.0)
+    R = min(spec.pop('_R', 600.0), 2400 * ms)       # at most ~5000 integration steps
     cfg['max_calc_step_size_feet'] = ms
     calc = pb.Calculator(_config=cfg)
     shot = make_shot(spec)
@@ -493,6 +515,8 @@ def plan(tier):
     # cap-1 variants: iteration cap 1 must fail from a cold start
     nm = list(range(len(name_table_static())))
     adv = [[n, ms] for n in ADV_SHOTS for ms in ((0.5,) if tier == 'quick' else (0.5, 0.1, 1.0))]
+    # small and large configured steps on fast and slow projectiles (the step must follow the setting over its whole range)
+    adv += [[n, ms] for n in ('flat', 'hot', 'tail30', 'slow', 'pellet') for ms in ((0.02, 2.0) if tier == 'quick' else (0.05, 0.02, 0.005, 2.0, 5.0))]
     return [('subset', subs), ('defaults', ['Yard', 'Meter', 'Inch']), ('history', [2 if tier == 'quick' else 3]), ('advance', adv),
             ('names', nm), ('unknown', UNKNOWN)]
 
